@@ -288,9 +288,9 @@ func (m *Machine) floatOp(op token.Token, w int, x, y *T) Value {
 	case token.QUO:
 		return fuf("fdiv"+sfx, w, x, y)
 	case token.EQL:
-		return fuf("feq"+sfx, 0, x, y)
+		return floatEq(w, x, y)
 	case token.NEQ:
-		return Not(fuf("feq"+sfx, 0, x, y))
+		return Not(floatEq(w, x, y))
 	case token.LSS:
 		return fuf("flt"+sfx, 0, x, y)
 	case token.GTR:
@@ -301,6 +301,25 @@ func (m *Machine) floatOp(op token.Token, w int, x, y *T) Value {
 		return fuf("fle"+sfx, 0, y, x)
 	}
 	panic(unsupported{"float op " + op.String()})
+}
+
+// floatIsNaN is exact on the bit pattern: exponent all ones and a non-zero mantissa.
+func floatIsNaN(w int, x *T) *T {
+	if w == 32 {
+		return And(Eq(Extract(30, 23, x), BV(8, 0xff)), Not(Eq(Extract(22, 0, x), BV(23, 0))))
+	}
+	return And(Eq(Extract(62, 52, x), BV(11, 0x7ff)), Not(Eq(Extract(51, 0, x), BV(52, 0))))
+}
+
+// floatEq: equal bit patterns are equal unless NaN; +0 == -0; NaN equals nothing; otherwise different.
+func floatEq(w int, x, y *T) *T {
+	if x.id > y.id {
+		x, y = y, x
+	}
+	sameBits := Eq(x, y)
+	absMask := BV(w, mask(w)>>1)
+	bothZero := And(Eq(Bin("bvand", x, absMask), BV(w, 0)), Eq(Bin("bvand", y, absMask), BV(w, 0)))
+	return And(Or(sameBits, bothZero), And(Not(floatIsNaN(w, x)), Not(floatIsNaN(w, y))))
 }
 
 func (m *Machine) unop(x *ssa.UnOp, v Value) Value {
